@@ -2,5 +2,4 @@ package main
 
 import "bufio"
 
-func cmdParse(in *bufio.Reader)   { panic("todo") }
 func cmdMemOps(in *bufio.Reader)  { panic("todo") }
